@@ -514,6 +514,8 @@ fn run(a: &vhcore::Args) -> i32 {
         .collect();
     let mut pool = Pool::new(a.jobs, vhcore::work_dir("C12/pool"));
     pool.recycle_after = 30;
+    // wall-clock watchdog only (never a verdict); generous because the box may be heavily oversubscribed
+    pool.timeout = std::time::Duration::from_secs(3600);
 
     // self-check: first, middle and last contract in both modes (folded into the main run)
     let sc_idx: Vec<usize> = {
